@@ -242,6 +242,12 @@ func schedule(rng *rand.Rand, kind int) []int {
 		return []int{1 << 20}
 	case 3:
 		return []int{7}
+	case 6: // a few short Reads (stopping inside a block), the rest through io.Copy
+		var s []int
+		for k := rng.Intn(4); k > 0; k-- {
+			s = append(s, 1+rng.Intn(40))
+		}
+		return append(s, -1)
 	case 5: // a zero-length Read after every short Read, all the way through
 		var s []int
 		for i := 0; i < 6000; i++ {
@@ -293,11 +299,24 @@ func observe(c codec, data []byte, sk srcKind, sched []int, rng *rand.Rand) (o o
 		if i+1 < len(sched) {
 			i++
 		}
-		if cap(pool) < n {
-			pool = make([]byte, n)
+		var cnt int
+		var err error
+		var buf []byte
+		if n < 0 {
+			// the rest through io.Copy (which uses an io.WriterTo of the Reader if it has one)
+			var bb bytes.Buffer
+			_, err = io.Copy(&bb, io.Reader(zr))
+			if err == nil {
+				err = io.EOF
+			}
+			buf, cnt, n = bb.Bytes(), bb.Len(), bb.Len()
+		} else {
+			if cap(pool) < n {
+				pool = make([]byte, n)
+			}
+			buf = pool[:n]
+			cnt, err = zr.Read(buf)
 		}
-		buf := pool[:n]
-		cnt, err := zr.Read(buf)
 		if cnt < 0 || cnt > n {
 			o.Bad = fmt.Sprintf("Read returned %d for len %d", cnt, n)
 			cnt = 0
